@@ -19,7 +19,7 @@ IMPORTS = ('From PM Require Import Lib.Bytes Lib.PyStr Http.Url Http.Chunk Http.
            'From Coq Require Import ZArith.')
 CASE_TYPE = 'UrlCases.case'
 CHECK_FN = 'UrlCases.check_case'
-SHARD = 250
+SHARD = 600
 ANCHOR_FILES = ['proxy/http/url.py', 'proxy/http/parser/parser.py', 'proxy/http/proxy/server.py',
                 'proxy/core/connection/server.py', 'proxy/common/utils.py']
 RULE = ('request-targets generated from the URI grammar restricted to http and authority forms: origin-form (paths with reserved '
@@ -572,8 +572,11 @@ def oracle_valid(case, out):
         return 'expected one connection to %s port %d, socket-level calls: %r' % (exp['host'], exp['port'], r['calls'])
     if r['calls'][0] != exp:
         return 'connection opened to %r, target names %r' % (r['calls'][0], exp)
-    if ic and not (r['status'] or b'').startswith(b'HTTP/1.1 200'):
-        return 'CONNECT to a reachable upstream answered %r' % r['status']
+    if ic:
+        if not (r['status'] or b'').startswith(b'HTTP/1.1 200'):
+            return 'CONNECT to a reachable upstream answered %r' % r['status']
+    elif r['forwarded'] != case['method'] + b' ' + (d['path'] or b'/') + b' HTTP/1.1':
+        return 'request line read by the upstream peer is %r, target path is %r' % (r['forwarded'], d['path'])
     return None
 
 
